@@ -438,7 +438,7 @@ fn run_manager(c: &AsyncCase, is_async: bool) -> Result<Outcome, Failure> {
     let mut count_since_open = 0u64;
     let mut explicit_rotations = 0u64;
     let mut hi_seen = 0u64;
-    let mut last_epoch: Option<u64> = None;
+    let mut last_epoch: Option<u64>;
     let mut bg_running = false;
     let mut out = Outcome { recovered: Vec::new(), files_max: 0, retired: false };
     let mut steps = c.steps.clone();
@@ -572,7 +572,7 @@ fn run_manager(c: &AsyncCase, is_async: bool) -> Result<Outcome, Failure> {
                 };
                 if !good {
                     let disk = model_recover(&disk_stream(&files));
-                    let where_ = if disk == got { "the files hold exactly what recovery returned: records never reached the files" } else { "the files hold something else than recovery returned" };
+                    let where_ = if disk == got { "the files, read in sequence order by an independent reader, hold exactly what recovery returned: the write side lost, misplaced or reordered records" } else { "the files, read in sequence order by an independent reader, hold something else than recovery returned" };
                     let sigx = if disk == got { format!("{sig}/acknowledged-records-not-in-files") } else { format!("{sig}/recovered-records-mismatch") };
                     return fail(sigx, format!("{}: recovered vs acknowledged+committed: {}; {where_}", ctx(), first_diff(&got, &want)));
                 }
@@ -1250,7 +1250,7 @@ pub fn check_acrash_case(c: &ACrashCase, pool: &WorkerPool, ctr: &Counters, thor
             } else {
                 "c06/async/committed-records-dropped"
             };
-            return fail(sig, format!("{ctx} {k} intact records, torn tail: {torn}; recovered vs committed-in-the-image: {}", first_diff(got, &want)));
+            return fail(sig, format!("{ctx} {k} intact records, torn tail: {torn}; committed-in-the-image vs recovered: {}", first_diff(&want, got)));
         }
         if got.len() < must.len() {
             return fail("c06/harness", format!("{ctx} lower bound above the exact answer"));
@@ -1264,7 +1264,7 @@ pub fn check_acrash_case(c: &ACrashCase, pool: &WorkerPool, ctr: &Counters, thor
             raw2.push(item_of(&WalRecord::TxCommit { tx_id: TxId::new(CONT_TX) }));
             let want2 = model_recover(&raw2);
             if *got2 != want2 {
-                let what = format!("{ctx} continuation of {} records, torn tail: {torn}: recovered vs expected: {}", c.cont.len(), first_diff(got2, &want2));
+                let what = format!("{ctx} continuation of {} records, torn tail: {torn}: expected vs recovered: {}", c.cont.len(), first_diff(&want2, got2));
                 if torn && *got2 == want {
                     if specific.is_none() {
                         specific = Some(Failure {
@@ -1327,7 +1327,7 @@ pub fn run_c05(r: &mut Run) {
     );
     let thorough = r.is_thorough();
     let max_steps = if thorough { 120 } else { 40 };
-    r.subcheck("async_wal_manager", r.cases(2500, 100_000), move || async_case_strategy(max_steps), check_async_case);
+    r.subcheck("async_wal_manager", r.cases(2000, 100_000), move || async_case_strategy(max_steps), check_async_case);
     let (fsteps, reps) = if thorough { (60, 4) } else { (24, 2) };
     r.subcheck("wal_flusher", r.cases(600, 20_000), move || flusher_case_strategy(fsteps, reps), check_flusher_case);
 }
@@ -1351,7 +1351,7 @@ pub fn run_c06(r: &mut Run, pool: &WorkerPool, ctr: &Counters) {
     );
     let thorough = r.is_thorough();
     let (max_steps, max_cont) = if thorough { (40, 8) } else { (16, 4) };
-    r.subcheck("async_crash_images", r.cases(160, 4000), move || acrash_case_strategy(max_steps, max_cont), |c: &ACrashCase| {
+    r.subcheck("async_crash_images", r.cases(128, 4000), move || acrash_case_strategy(max_steps, max_cont), |c: &ACrashCase| {
         check_acrash_case(c, pool, ctr, thorough)
     });
 }
